@@ -310,6 +310,29 @@ def node(w, hist, cfg, res):
                         for x in made:
                             shutil.rmtree(os.path.join(dd, x),
                                           ignore_errors=True)
+                    # ... the same through the BlobStorage wrapper
+                    res.clause('C09.ro.files')
+                    s3 = call(FS(), os.path.join(dd, 'Data.fs'),
+                              read_only=True)
+                    if not isinstance(s3, Exc):
+                        s4 = call(env.mod('ZODB.blob').BlobStorage,
+                                  os.path.join(dd, 'blobs'), s3)
+                        if isinstance(s4, Exc):
+                            bad('ro.open', '%s:blob-wrapper:%s' % (
+                                kind, s4.name), dict(image=label,
+                                                     got=repr(s4)))
+                            s3.close()
+                        else:
+                            call(s4.load, p64(1))
+                            s4.close()
+                    made = sorted(set(os.listdir(dd)) - set(want))
+                    if made:
+                        bad('ro.files', '%s:blob-wrapper:created' % kind,
+                            dict(image=label, created=made))
+                        import shutil
+                        for x in made:
+                            shutil.rmtree(os.path.join(dd, x),
+                                          ignore_errors=True)
             finally:
                 env.rm_dir(dd)
     # torn tail: the last transaction cut at several places, or still
